@@ -28,7 +28,7 @@ from ..model import AnalysisError, alpha_key
 from ..tables import routing as T
 from .C04 import uniform_keys, tuple_funcs
 
-FLOOR = 122
+FLOOR = 162
 EXPLANATION = (
     "Static batch-axis non-interference over the forward paths (module-level helpers and self-methods inlined) of ~100 nn.Module "
     "classes that make up the bundled constructive policies: every returned value's def-use graph is searched for batch-global "
